@@ -58,7 +58,9 @@ AIO_fwriteSparse(FILE* file,
         storedSkips -= 1 GB;
     }
 
-    while (ptrT < bufferTEnd) {
+    while (ptrT < bufferTEnd)
+    ZSTD_VERIF_LOOP(ZSTD_VERIF_SPARSE_SEGMENTS(buffer, bufferT, bufferTEnd, ptrT, bufferSizeT, storedSkips))
+    {
         size_t nb0T;
 
         /* adjust last segment if < 32 KB */
@@ -67,7 +69,8 @@ AIO_fwriteSparse(FILE* file,
         bufferSizeT -= seg0SizeT;
 
         /* count leading zeroes */
-        for (nb0T=0; (nb0T < seg0SizeT) && (ptrT[nb0T] == 0); nb0T++) ;
+        for (nb0T=0; (nb0T < seg0SizeT) && (ptrT[nb0T] == 0); nb0T++)
+            ZSTD_VERIF_LOOP(ZSTD_VERIF_SPARSE_ZEROWORDS(buffer, bufferT, ptrT, nb0T, seg0SizeT)) ;
         storedSkips += (unsigned)(nb0T * sizeof(size_t));
 
         if (nb0T != seg0SizeT) {   /* not all 0s */
@@ -91,7 +94,8 @@ AIO_fwriteSparse(FILE* file,
             const char* restPtr = restStart;
             const char* const restEnd = (const char*)buffer + bufferSize;
             assert(restEnd > restStart && restEnd < restStart + sizeof(size_t));
-            for ( ; (restPtr < restEnd) && (*restPtr == 0); restPtr++) ;
+            for ( ; (restPtr < restEnd) && (*restPtr == 0); restPtr++)
+                ZSTD_VERIF_LOOP(ZSTD_VERIF_SPARSE_ZEROBYTES(buffer, restStart, restEnd, restPtr)) ;
             storedSkips += (unsigned) (restPtr - restStart);
             if (restPtr != restEnd) {
                 /* not all remaining bytes are 0 */
